@@ -24,7 +24,7 @@ META = {
                  'binary64 correct rounding) about a '
                  'hand-written Gallina model + differential correspondence with the implementation and a docs-derived reference oracle',
     'design_ref': 'DESIGN.md section 4 C04',
-    'theorems': ['C04_truthy_is_documented', 'C04_bool', 'C04_bool_v1', 'C04_round_half_even', 'C04_round_unique',
+    'theorems': ['C04_truthy_is_documented', 'C04_dispatch_source_tie', 'C04_bool', 'C04_bool_v1', 'C04_round_half_even', 'C04_round_unique',
                  'C04_int_of_str_shape', 'C04_scalar_ref', 'C04_int_v0', 'C04_int_v1', 'C04_str',
                  'C04_datetime_z_suffix', 'C04_datetime_numeric_utc', 'C04_datetime_numeric_v1',
                  'C04_datetime_env_numeric_string', 'C04_timedelta_dispatch',
@@ -32,7 +32,7 @@ META = {
                  'C04_env_split', 'C04_env_split_dict', 'C04_env_tuple_refuted',
                  'C04_int_string_exact', 'C04_int_string_everywhere', 'C04_int_string_dict_key', 'C04_int_string_no_float_route',
                  'C04_int_point_zero_exact', 'C04_int_point_zero_is_a_float', 'C04_float_nearest', 'C04_float_exact'],
-    'tables': ['Truthy'],
+    'tables': ['Truthy', 'CoerceDispatchAlg'],
     'level_text': ('Theorems proved in Coq for ALL JSON-ish inputs (unbounded ints, exact dyadic floats, arbitrary ASCII strings, '
                    'nested lists/dicts), all three engines and all container contexts, about an executable model of type_conv.py '
                    'and the scalar/container load hooks; int(str), float(str), float(int), round(), is_integer() are concrete in the model '
